@@ -1,7 +1,7 @@
 (* Properties_C17.v — C17: import/export and the raw stream format round-trip in the documented
    format and report a short stream.  Statements only. *)
 From Coq Require Import ZArith List Bool.
-From Mpir Require Import Word IoDefs IoProofs.
+From Mpir Require Import Word Limbs MpzDefs IoDefs IoProofs IoLoopDefs IoLoopProofs.
 Import ListNotations.
 Local Open Scope Z_scope.
 
@@ -72,6 +72,29 @@ Theorem C17_raw_total : forall s, Forall (fun b => 0 <= b < 256) s ->
   n = 0 \/ (4 <= n <= Z.of_nat (length s) /\ Z.abs v < 2 ^ (8 * (n - 4))).
 Proof. exact raw_total. Qed.
 Print Assumptions C17_raw_total.
+
+
+(* the general bit-packing loops AS CODED (mpz/export.c: EXTRACT with its end-of-limbs guard, byte and word pointers walking by
+   endian / order, nail bytes; mpz/import.c: ACCUMULATE) produce exactly the bytes / the value of the specification above, for
+   every size, order, endianness, nail count, value and initial buffer content *)
+Theorem C17_export_loop_is_spec : forall init x size order endian nails,
+  1 <= size -> 0 <= nails < 8 * size -> (order = 1 \/ order = -1) -> (endian = 1 \/ endian = 0 \/ endian = -1) ->
+  fst (export_loop init (limbs_of_Z x) size order endian nails) = fst (mpz_export x size order endian nails)
+  /\ snd (export_loop init (limbs_of_Z x) size order endian nails) = snd (mpz_export x size order endian nails).
+Proof. exact export_loop_eq_spec_Z. Qed.
+Print Assumptions C17_export_loop_is_spec.
+
+Theorem C17_import_loop_is_spec : forall bytes count size order endian nails,
+  1 <= size -> 0 <= nails < 8 * size -> (order = 1 \/ order = -1) -> (endian = 1 \/ endian = 0 \/ endian = -1) -> 0 <= count ->
+  Z.of_nat (length bytes) = count * size -> Forall (fun b => 0 <= b < 256) bytes ->
+  import_loop bytes count size order endian nails = mpz_import bytes count size order endian nails.
+Proof. exact import_loop_eq_spec. Qed.
+Print Assumptions C17_import_loop_is_spec.
+
+(* the bit buffer of EXTRACT always holds exactly the next bits of the zero-extended value: nothing beyond the last limb is read *)
+Theorem C17_extract_reads_no_stale_limb : forall ls s, wf ls -> reachable ls s -> exists pos, buf_inv (eval ls) pos s.
+Proof. exact buf_inv_always. Qed.
+Print Assumptions C17_extract_reads_no_stale_limb.
 
 Example C17_nonvacuous :
   mpz_export (2 ^ 64 + 258) 2 1 1 0 = ([0; 1; 0; 0; 0; 0; 0; 0; 1; 2], 5)
